@@ -177,6 +177,7 @@ fn histories(cli: &Path, work: &Path, rep: &mut Report) {
             q.push_back(h2);
         }
     }
+    let expected_out = run_cli(cli, &[inp.to_str().unwrap()]).1;
     let results: Vec<(Option<String>, Vec<(FileState, usize)>)> = all
         .par_iter()
         .enumerate()
@@ -195,6 +196,11 @@ fn histories(cli: &Path, work: &Path, rep: &mut Report) {
                             bad = Some(format!("step {k} write: exit {code} {err}"));
                         }
                         let after = std::fs::read(&out).ok();
+                        // after a write the file holds exactly the generated output (modulo line endings)
+                        let text = String::from_utf8_lossy(after.as_deref().unwrap_or(b"")).to_string();
+                        if !text.lines().eq(expected_out.lines()) {
+                            bad = Some(format!("step {k}: after a write the file does not hold the generated output ({} bytes, expected {})", text.len(), expected_out.len()));
+                        }
                         match model {
                             FileState::Fresh | FileState::FreshCrlf => {
                                 if after != before {
